@@ -466,9 +466,425 @@ def unit_chain(U, D):
   return ("spatial/accumulate_jac_chain", run)
 
 
+CHAIN_IN = ["body_parentid", "body_dofnum", "body_dofadr", "ten_J_colind", "cdof_in", "offset", "vec", "bodyid", "rowadr", "rownnz", "scale", "worldid", "ten_J_out"]
+MINVAL, MAXVAL = 1e-15, 1e10
+mjWRAP_SPHERE = 4
+
+
+def spatial_summaries(calls, rec):
+  """contracts inside the spatial tendon kernels: _accumulate_jac_chain records its call (its effect is the chain unit);
+  util_misc.wrap and math.normalize_with_norm are shared uninterpreted functions"""
+  Rs, Is = z3.RealSort(), z3.IntSort()
+
+  def chain(it, fr, args):
+    g = it.active(fr)
+    a = dict(zip(CHAIN_IN, args))
+    calls.append((g, a))
+    # first-level accesses of the real function (so that the body's entries exist in replayed models)
+    gb = And(g, cmp(">", a["bodyid"], 0))
+    for lab in ("body_dofadr", "body_dofnum", "body_parentid"):
+      it.load(a[lab], (a["bodyid"],), gb, "_accumulate_jac_chain(contract)")
+    return None
+
+  def wrap(it, fr, args):
+    x0, x1, pos, mat, radius, geomtype, side = args
+    reals = [core.to_z3(v, "real") for v in list(x0.c) + list(x1.c) + list(pos.c) + list(mat.c) + [radius] + list(side.c)]
+    zs = reals + [core.to_z3(geomtype, "int")]
+    F = lambda nm: z3.Function(nm, *([Rs] * len(reals) + [Is, Rs]))(*zs)
+    rec["wrap_args"] = args
+    rec["L"], rec["g0"], rec["g1"] = F("WRAP_LEN"), [F(f"WRAP_P0_{i}") for i in range(3)], [F(f"WRAP_P1_{i}") for i in range(3)]
+    return (rec["L"], core.Vec(rec["g0"], (3,), "f"), core.Vec(rec["g1"], (3,), "f"))
+
+  def normalize_with_norm(it, fr, args):
+    (x,) = args
+    return unit_and_norm(x.c, vec=True)
+
+  return {"_accumulate_jac_chain": chain, "wrap": wrap, "normalize_with_norm": normalize_with_norm}
+
+
+def unit_and_norm(v, vec=False):
+  Rs = z3.RealSort()
+  zs = [core.to_z3(x, "real") for x in v]
+  u = [z3.Function(f"NORMALIZED{i}", Rs, Rs, Rs, Rs)(*zs) for i in range(3)]
+  n = z3.Function("NORM", Rs, Rs, Rs, Rs)(*zs)
+  return (core.Vec(u, (3,), "f"), n) if vec else (u, n)
+
+
+def seg_dir(pa, pb):
+  """unit direction and length of the straight segment pa -> pb; MuJoCo: (1,0,0) when shorter than mjMINVAL"""
+  u, n = unit_and_norm(rf.vsub(pb, pa))
+  small = cmp("<", n, MINVAL)
+  return [ite(small, c, x) for c, x in zip((1.0, 0.0, 0.0), u)], n
+
+
+def check_segment(ctx, sess, kt, calls, i0, seg, tenid, w, pulley, names, rp, tag):
+  """calls[i0], calls[i0+1] are the two _accumulate_jac_chain calls of the segment seg = (name, cond, pa, ba, pb, bb):
+  issued iff cond and the bodies differ, with each point's offset about ITS OWN body's tree-root subtree_com"""
+  name, cond, pa, ba, pb, bb = seg
+  d, _ = seg_dir(pa, pb)
+  # replayable witnesses: moving bodies in different trees (the solver's first model is replayed first)
+  ra_, rb_ = kt.pre("body_rootid", ba), kt.pre("body_rootid", bb)
+  nice = And(cmp(">", ba, 0), cmp(">", bb, 0), cmp("!=", ba, bb), cmp("!=", ra_, rb_), cmp(">=", ra_, 0), cmp(">=", rb_, 0))
+  base_rp = rp
+  mk_rp = lambda goal, guard: c05.robust_replay(ctx, kt.bg, core.zbool(goal), guard, nice, base_rp)
+  rowadr, rownnz = kt.pre("ten_J_rowadr", tenid), kt.pre("ten_J_rownnz", tenid)
+  want = And(cond, cmp("!=", ba, bb))
+  for j, (pt, bd, sgn) in enumerate(((pa, ba, -1.0), (pb, bb, 1.0))):
+    g, a = calls[i0 + j]
+    com = [kt.pre("subtree_com_in", w, kt.pre("body_rootid", bd), k=i) for i in range(3)]
+    off = rf.vsub(pt, com)
+    end = "start" if j == 0 else "end"
+    ctx.prove(sess, f"{name}/{end}/issued-iff", core.zbool(g) == core.zbool(want), True, names=names, replay=rp, desc=f"{tag}: segment {name}: the Jacobian contribution of its {end} point is issued under the wrong condition (must be: segment exists and its two bodies differ)")
+    gl_ = And(*[cmp("==", x, y) for x, y in zip(a["offset"].c, off)])
+    ctx.prove(sess, f"{name}/{end}/offset-about-own-root", gl_, want, names=names, replay=mk_rp(gl_, want), desc=f"{tag}: segment {name}: lever arm of the {end} point is not point - subtree_com[root of the point's own body]")
+    gl_ = cmp("==", a["bodyid"], bd)
+    ctx.prove(sess, f"{name}/{end}/body", gl_, want, names=names, replay=mk_rp(gl_, want), desc=f"{tag}: segment {name}: {end} point's Jacobian taken for the wrong body")
+    gl_ = And(*[cmp("==", x, y) for x, y in zip(a["vec"].c, d)])
+    ctx.prove(sess, f"{name}/{end}/direction", gl_, want, names=names, replay=mk_rp(gl_, want), desc=f"{tag}: segment {name}: projection direction is not the unit vector start -> end")
+    gl_ = cmp("==", a["scale"], arith("*", sgn, pulley))
+    ctx.prove(sess, f"{name}/{end}/scale", gl_, want, names=names, replay=mk_rp(gl_, want), desc=f"{tag}: segment {name}: {end} point must enter with {'-' if j == 0 else '+'}pulley scale (1/divisor)")
+    gl_ = And(cmp("==", a["rowadr"], rowadr), cmp("==", a["rownnz"], rownnz), cmp("==", a["worldid"], w), a["ten_J_out"].cell is kt.cell("ten_J_out"), a["cdof_in"].cell is kt.cell("cdof_in"))
+    ctx.prove(sess, f"{name}/{end}/row+world", gl_, want, names=names, replay=mk_rp(gl_, want), desc=f"{tag}: segment {name}: contribution goes to another tendon's CSR row / world")
+
+
+def num_chain_J(pre, w, body, c):
+  """does dof c move `body` (chain walk)"""
+  while body > 0:
+    a, n = int(pre["body_dofadr"][body]), int(pre["body_dofnum"][body])
+    if a <= c < a + n:
+      return True
+    body = int(pre["body_parentid"][body])
+  return False
+
+
+def num_segment_J(pre, w, pa, ba, pb, bb, c):
+  import numpy as np
+
+  pa, pb = np.asarray(pa, dtype=float), np.asarray(pb, dtype=float)
+  d = pb - pa
+  n = np.linalg.norm(d)
+  d = d / n if n >= MINVAL else np.array([1.0, 0.0, 0.0])
+  if ba == bb:
+    return 0.0, n
+  out = 0.0
+  cd = np.asarray(pre["cdof_in"][w, c], dtype=float)
+  for pt, bd, sgn in ((pa, ba, -1.0), (pb, bb, 1.0)):
+    if num_chain_J(pre, w, bd, c):
+      off = pt - np.asarray(pre["subtree_com_in"][w, int(pre["body_rootid"][bd])], dtype=float)
+      out += sgn * float(d @ (cd[3:] + np.cross(cd[:3], off)))
+  return out, n
+
+
+def goal_site_tendon(spec, pre, post):
+  w, e = spec["tid"]
+  adr, ten = int(pre["wrap_site_pair_adr"][e]), int(pre["tendon_site_pair_adr"][e])
+  pul = float(pre["wrap_pulley_scale"][adr])
+  i0, i1 = int(pre["wrap_objid"][adr]), int(pre["wrap_objid"][adr + 1])
+  p0, p1 = pre["site_xpos_in"][w, i0], pre["site_xpos_in"][w, i1]
+  b0, b1 = int(pre["site_bodyid"][i0]), int(pre["site_bodyid"][i1])
+  ra, nnz = int(pre["ten_J_rowadr"][ten]), int(pre["ten_J_rownnz"][ten])
+  bad = []
+  n = 0.0
+  for k in range(nnz):
+    c = int(pre["ten_J_colind"][ra + k])
+    j, n = num_segment_J(pre, w, p0, b0, p1, b1, c)
+    got = float(post["ten_J_out"][w, ra + k] - pre["ten_J_out"][w, ra + k])
+    if not lib.approx(got, pul * j, rtol=3e-3, atol=1e-4):
+      bad.append(f"ten_J entry {k} (dof {c}): += {got}, reference pulley * dir.(jac(p1,b1) - jac(p0,b0)) = {pul * j}")
+  return (not bad), "; ".join(bad) or "agrees"
+
+
+def unit_site_tendon(ctx):
+  from mujoco_warp._src import smooth
+
+  k = smooth._spatial_site_tendon
+  loc = "mujoco_warp._src.smooth:_spatial_site_tendon"
+  calls, rec = [], {}
+  ctx.encode(k)
+  ctx.bound(shape_cap=6, note="one generic (world, site pair) thread; all ids symbolic")
+  ctx.assume("thread's own array accesses are in bounds (C17)", "floats are exact reals", "`_accumulate_jac_chain` is replaced by a recording contract (its effect: unit spatial/accumulate_jac_chain)", "math.normalize_with_norm is a shared uninterpreted function (unit vector and norm)")
+  kt = lib.kernel_thread(k, unroll=2, interp_kw={"summaries": spatial_summaries(calls, rec)})
+  w, e = kt.tid
+  adr, ten = kt.pre("wrap_site_pair_adr", e), kt.pre("tendon_site_pair_adr", e)
+  pul = kt.pre("wrap_pulley_scale", adr)
+  i0, i1 = kt.pre("wrap_objid", adr), kt.pre("wrap_objid", arith("+", adr, 1))
+  V = lambda lab, *idx: [kt.pre(lab, *idx, k=i) for i in range(kt.cell(lab).ncomp)]
+  p0, p1 = V("site_xpos_in", w, i0), V("site_xpos_in", w, i1)
+  b0, b1 = kt.pre("site_bodyid", i0), kt.pre("site_bodyid", i1)
+  if len(calls) != 2:
+    ctx.error(f"_spatial_site_tendon: {len(calls)} _accumulate_jac_chain call sites, expected 2")
+    return
+  sess = ctx.session(kt.bg)
+  r0, r1 = kt.pre("body_rootid", b0), kt.pre("body_rootid", b1)
+  ctx.reach(sess, "twin:sites-in-different-trees", And(b0 != b1, r0 != r1, Or(*[x != y for x, y in zip(V("subtree_com_in", w, r0), V("subtree_com_in", w, r1))])))
+  names = {"world": w, "element": e, "site0": i0, "site1": i1, "body0": b0, "body1": b1, "root0": r0, "root1": r1}
+  def rp(model):
+    path = replay.write_spec(ctx.pid, ctx.unit, "site", loc, kt.kernel, kt.args, model, kt.tid, "goal", goal="checks.c22:goal_site_tendon", env={})
+    craft_site_spec(path)
+    return replay.run_spec(path)
+
+  _, n = seg_dir(p0, p1)
+  ctx.prove(sess, "length+=pulley*|p1-p0|", cmp("==", kt.atomic_total("ten_length_out", w, ten), arith("*", n, pul)), True, names=names, replay=rp, desc="_spatial_site_tendon: length contribution is not pulley_scale * distance between the two sites")
+  check_segment(ctx, sess, kt, calls, 0, ("site-site", True, p0, b0, p1, b1), ten, w, pul, names, rp, "_spatial_site_tendon")
+
+
+def _spec_arr(spec, label):
+  import numpy as np
+
+  a = spec["args"][label]
+  shape = tuple(a["shape"])
+  n = int(np.prod(shape)) if shape else 1
+  buf = np.array(a["data"], dtype=float).T.reshape(shape + tuple(a["vshape"])) if n else np.zeros(shape + tuple(a["vshape"]))
+  return buf
+
+
+def _spec_resize(spec, label, shape):
+  import numpy as np
+
+  a = spec["args"][label]
+  a["shape"] = [int(x) for x in shape]
+  n = int(np.prod(shape))
+  a["data"] = [[0] * n for _ in range(a["ncomp"])]
+
+
+def _spec_put(spec, label, arr):
+  import numpy as np
+
+  a = spec["args"][label]
+  flat = np.asarray(arr, dtype=float).reshape(-1, a["ncomp"])
+  a["data"] = [[(int(x) if a["dtype"] == "int" else float(x)) for x in flat[:, k]] for k in range(a["ncomp"])]
+
+
+def craft_tree(spec, rng):
+  """replay inputs: keep the model's ids (sites, geoms, bodies, tree roots) but give the bodies a well-formed dof tree
+  (every body a child of the world with one dof while dofs last) and the tendon a CSR row over all dofs; random
+  subtree_com rows (distinct per tree) and cdof"""
+  import numpy as np
+
+  I = lambda l: _spec_arr(spec, l).astype(int)
+  # the dof arrays are not read by the kernel once _accumulate_jac_chain is a contract: size them for one dof per body
+  nb = max([len(I("body_parentid")), len(I("body_rootid"))] + [int(I(l).max()) + 1 for l in ("site_bodyid", "geom_bodyid") if l in spec["args"] and I(l).size])
+  # a mutated kernel may not read body_rootid of every body: extend it (new bodies are their own tree root)
+  root = list(I("body_rootid"))
+  root += list(range(len(root), nb))
+  _spec_resize(spec, "body_rootid", (nb,))
+  _spec_put(spec, "body_rootid", root)
+  nroot = max(root) + 1
+  if _spec_arr(spec, "subtree_com_in").shape[1] < nroot:
+    _spec_resize(spec, "subtree_com_in", (max(1, _spec_arr(spec, "subtree_com_in").shape[0], spec["tid"][0] + 1), nroot))
+  nw = max(1, _spec_arr(spec, "subtree_com_in").shape[0], spec["tid"][0] + 1)
+  ntend = max(1, len(I("ten_J_rowadr")))
+  for lab, shape in (("body_parentid", (nb,)), ("body_dofnum", (nb,)), ("body_dofadr", (nb,)), ("cdof_in", (nw, nb)), ("ten_J_out", (nw, nb)), ("ten_J_colind", (nb,))):
+    _spec_resize(spec, lab, shape)
+  ndof = nb - 1
+  par = I("body_parentid")
+  par[:] = 0
+  _spec_put(spec, "body_parentid", par)
+  dn, da = I("body_dofnum"), I("body_dofadr")
+  for b in range(len(dn)):
+    dn[b] = 1 if 1 <= b <= ndof else 0
+  for b in range(len(da)):
+    da[b] = b - 1 if 1 <= b <= ndof else -1
+  _spec_put(spec, "body_dofnum", dn)
+  _spec_put(spec, "body_dofadr", da)
+  col = I("ten_J_colind")
+  nj = _spec_arr(spec, "ten_J_out").shape[1]
+  n = max(0, min(ndof, len(col), nj))
+  col[:n] = np.arange(n)
+  _spec_put(spec, "ten_J_colind", col)
+  ra, rn = I("ten_J_rowadr"), I("ten_J_rownnz")
+  ra[:] = 0
+  rn[:] = n
+  _spec_put(spec, "ten_J_rowadr", ra)
+  _spec_put(spec, "ten_J_rownnz", rn)
+  for lab in ("subtree_com_in", "cdof_in"):
+    a = _spec_arr(spec, lab)
+    a[:] = rng.uniform(-1.0, 1.0, a.shape)
+    _spec_put(spec, lab, a)
+  tj = _spec_arr(spec, "ten_J_out")
+  tj[:] = 0.0
+  _spec_put(spec, "ten_J_out", tj)
+  ps = _spec_arr(spec, "wrap_pulley_scale")
+  ps[:] = 0.5
+  _spec_put(spec, "wrap_pulley_scale", ps)
+
+
+def craft_site_spec(path):
+  import json
+
+  import numpy as np
+
+  spec = json.load(open(path))
+  rng = np.random.default_rng(6)
+  craft_tree(spec, rng)
+  sx = _spec_arr(spec, "site_xpos_in")
+  sx[:] = rng.uniform(-2.0, 2.0, sx.shape)
+  _spec_put(spec, "site_xpos_in", sx)
+  json.dump(spec, open(path, "w"), indent=1)
+
+
+def craft_geom_spec(path):
+  """keep the solver model's integers (topology, ids) and craft float inputs for which the wrap really occurs: sphere of
+  radius 0.5 at the origin, the two sites on opposite sides, no side site; distinct subtree_com rows, random cdof"""
+  import json
+
+  import numpy as np
+
+  spec = json.load(open(path))
+  rng = np.random.default_rng(5)
+  w, e = spec["tid"]
+  I = lambda l: _spec_arr(spec, l).astype(int)
+  adr = int(I("wrap_geom_adr")[e])
+  objid = I("wrap_objid")
+  s0, g, s1 = int(objid[adr - 1]), int(objid[adr]), int(objid[adr + 1])
+  sx = _spec_arr(spec, "site_xpos_in")
+  sx[:] = rng.uniform(1.0, 2.0, sx.shape)
+  sx[:, s0] = [-2.0, 0.05, 0.1]
+  sx[:, s1] = [2.0, -0.07, 0.15]
+  _spec_put(spec, "site_xpos_in", sx)
+  gx = _spec_arr(spec, "geom_xpos_in")
+  gx[:] = 0.0
+  _spec_put(spec, "geom_xpos_in", gx)
+  gm = _spec_arr(spec, "geom_xmat_in")
+  gm[:] = np.eye(3)
+  _spec_put(spec, "geom_xmat_in", gm)
+  gs = _spec_arr(spec, "geom_size")
+  gs[:] = 0.5
+  _spec_put(spec, "geom_size", gs)
+  wt = I("wrap_type")
+  wt[:] = mjWRAP_SPHERE
+  _spec_put(spec, "wrap_type", wt)
+  wpm = _spec_arr(spec, "wrap_prm")
+  wpm[:] = -1.0
+  _spec_put(spec, "wrap_prm", wpm)
+  craft_tree(spec, rng)
+  json.dump(spec, open(path, "w"), indent=1)
+
+
+def goal_geom_tendon(spec, pre, post):
+  import numpy as np
+  import warp as wp
+
+  from checks import kernels_c22 as K
+
+  w, e = spec["tid"]
+  adr, ten = int(pre["wrap_geom_adr"][e]), int(pre["tendon_geom_adr"][e])
+  pul = float(pre["wrap_pulley_scale"][adr])
+  s0, g, s1 = int(pre["wrap_objid"][adr - 1]), int(pre["wrap_objid"][adr]), int(pre["wrap_objid"][adr + 1])
+  p0, p1 = pre["site_xpos_in"][w, s0], pre["site_xpos_in"][w, s1]
+  bs0, bg, bs1 = int(pre["site_bodyid"][s0]), int(pre["geom_bodyid"][g]), int(pre["site_bodyid"][s1])
+  sid = int(round(float(pre["wrap_prm"][adr])))
+  side = pre["site_xpos_in"][w, sid] if sid >= 0 else np.full(3, MAXVAL)
+  size = float(pre["geom_size"][w % pre["geom_size"].shape[0], g][0])
+  # the abstracted part: tangent points and arc length from the REAL util_misc.wrap (forwarding wrapper kernel)
+  Lo, Po = wp.zeros(1, dtype=float), wp.zeros(2, dtype=wp.vec3)
+  wp.launch(K.wrap_wrap, dim=1, inputs=[wp.vec3(*map(float, p0)), wp.vec3(*map(float, p1)), wp.vec3(*map(float, pre["geom_xpos_in"][w, g])), wp.mat33(*map(float, np.asarray(pre["geom_xmat_in"][w, g]).reshape(-1))), size, int(pre["wrap_type"][adr]), wp.vec3(*map(float, side))], outputs=[Lo, Po], device="cpu")
+  L, (g0, g1) = float(Lo.numpy()[0]), Po.numpy()
+  segs = [(p0, bs0, g0, bg), (g1, bg, p1, bs1)] if L >= 0 else [(p0, bs0, p1, bs1)]
+  ra, nnz = int(pre["ten_J_rowadr"][ten]), int(pre["ten_J_rownnz"][ten])
+  bad = []
+  for k in range(nnz):
+    c = int(pre["ten_J_colind"][ra + k])
+    want = sum(num_segment_J(pre, w, a, ba, b, bb, c)[0] for a, ba, b, bb in segs) * pul
+    got = float(post["ten_J_out"][w, ra + k] - pre["ten_J_out"][w, ra + k])
+    if not lib.approx(got, want, rtol=3e-3, atol=1e-4):
+      bad.append(f"ten_J entry {k} (dof {c}): += {got}, reference sum over segments of pulley * dir.(jac(end) - jac(start)) = {want} (wrap length {L})")
+  return (not bad), "; ".join(bad) or f"agrees (wrap length {L})"
+
+
+def unit_geom_tendon(ctx):
+  from mujoco_warp._src import smooth, util_misc
+
+  k = smooth._spatial_geom_tendon
+  loc = "mujoco_warp._src.smooth:_spatial_geom_tendon"
+  calls, rec = [], {}
+  ctx.encode(k)
+  ctx.bound(shape_cap=6, note="one generic (world, wrap geom) thread; all ids symbolic")
+  ctx.assume("thread's own array accesses are in bounds (C17)", "floats are exact reals", "`_accumulate_jac_chain` is replaced by a recording contract (unit spatial/accumulate_jac_chain)", "util_misc.wrap (tangent points, arc length; -1 = no wrap) and math.normalize_with_norm are uninterpreted functions: the wrap geometry itself is outside")
+  kt = lib.kernel_thread(k, unroll=2, interp_kw={"summaries": spatial_summaries(calls, rec)})
+  w, e = kt.tid
+  adr, ten = kt.pre("wrap_geom_adr", e), kt.pre("tendon_geom_adr", e)
+  pul = kt.pre("wrap_pulley_scale", adr)
+  s0, g, s1 = kt.pre("wrap_objid", arith("-", adr, 1)), kt.pre("wrap_objid", adr), kt.pre("wrap_objid", arith("+", adr, 1))
+  V = lambda lab, *idx: [kt.pre(lab, *idx, k=i) for i in range(kt.cell(lab).ncomp)]
+  p0, p1 = V("site_xpos_in", w, s0), V("site_xpos_in", w, s1)
+  bs0, bg, bs1 = kt.pre("site_bodyid", s0), kt.pre("geom_bodyid", g), kt.pre("site_bodyid", s1)
+  if len(calls) != 6 or "L" not in rec:
+    ctx.error(f"_spatial_geom_tendon: {len(calls)} _accumulate_jac_chain call sites (expected 6) / wrap not called")
+    return
+  L, g0, g1 = rec["L"], rec["g0"], rec["g1"]
+  wrapped = cmp(">=", L, 0.0)
+  sess = ctx.session(kt.bg)
+  rs0, rg, rs1 = kt.pre("body_rootid", bs0), kt.pre("body_rootid", bg), kt.pre("body_rootid", bs1)
+  com = lambda r: V("subtree_com_in", w, r)
+  differ = lambda a, b: Or(*[x != y for x, y in zip(com(a), com(b))])
+  ctx.reach(sess, "twin:wrap-with-three-different-trees", And(wrapped, bs0 != bg, bg != bs1, bs0 != bs1, rs0 != rg, rg != rs1, rs0 != rs1, differ(rs0, rg), differ(rg, rs1), differ(rs0, rs1)))
+  ctx.reach(sess, "twin:no-wrap", And(Not(wrapped), bs0 != bs1))
+  names = {"world": w, "element": e, "site0": s0, "geom": g, "site1": s1, "body_site0": bs0, "body_geom": bg, "body_site1": bs1, "root_site0": rs0, "root_geom": rg, "root_site1": rs1}
+
+  def rp(model):
+    path = replay.write_spec(ctx.pid, ctx.unit, "geom", loc, kt.kernel, kt.args, model, kt.tid, "goal", goal="checks.c22:goal_geom_tendon", env={})
+    craft_geom_spec(path)
+    return replay.run_spec(path)
+
+  # arguments of the (abstracted) wrap computation
+  x0, x1, pos, mat, radius, gtype, side = rec["wrap_args"]
+  ctx.prove(sess, "wrap/arguments", And(*[cmp("==", a, b) for a, b in zip(list(x0.c) + list(x1.c) + list(pos.c) + list(mat.c), p0 + p1 + V("geom_xpos_in", w, g) + V("geom_xmat_in", w, g))], cmp("==", radius, kt.pre("geom_size", arith("%", w, kt.cell("geom_size").shape[0]), g, k=0)), cmp("==", gtype, kt.pre("wrap_type", adr))), True, names=names, replay=rp, desc="_spatial_geom_tendon: wrap is computed for other sites / geom / radius / type than the tendon path prescribes")
+  sideid = kt.it.top_frame.env.get("sideid")
+  if sideid is not None:
+    prm = kt.pre("wrap_prm", adr)
+    sref = [ite(cmp(">=", sideid, 0), x, MAXVAL) for x in V("site_xpos_in", w, sideid)]
+    # sideid is the kernel's own int(round(wrap_prm)) term; the rounding itself is not re-derived here
+    ctx.prove(sess, "wrap/side-site", And(*[cmp("==", a, b) for a, b in zip(side.c, sref)]), True, names=names, replay=rp, desc="_spatial_geom_tendon: side point is not site_xpos[round(wrap_prm)] (none = mjMAXVAL if negative)")
+  # length: pulley * (|g0 - s0| + arc + |s1 - g1|) when wrapped, pulley * |s1 - s0| otherwise
+  _, n0 = seg_dir(p0, g0)
+  _, n1 = seg_dir(g1, p1)
+  _, nss = seg_dir(p0, p1)
+  want_len = ite(wrapped, arith("*", rf.vsum([n0, L, n1]), pul), arith("*", nss, pul))
+  ctx.prove(sess, "length", cmp("==", kt.atomic_total("ten_length_out", w, ten), want_len), True, names=names, replay=rp, desc="_spatial_geom_tendon: length contribution is not pulley_scale * (site-geom + arc + geom-site) / pulley_scale * site-site")
+  ctx.prove(sess, "wrap-points-stored", And(*[cmp("==", kt.post("wrap_geom_xpos_out", w, e, k=i), (g0 + g1)[i]) for i in range(6)]), True, names=names, replay=rp, desc="_spatial_geom_tendon: stored wrap points differ from the computed tangent points")
+  tag = "_spatial_geom_tendon"
+  check_segment(ctx, sess, kt, calls, 0, ("site0-geom", wrapped, p0, bs0, g0, bg), ten, w, pul, names, rp, tag)
+  check_segment(ctx, sess, kt, calls, 2, ("geom-site1", wrapped, g1, bg, p1, bs1), ten, w, pul, names, rp, tag)
+  check_segment(ctx, sess, kt, calls, 4, ("site0-site1(no wrap)", Not(wrapped), p0, bs0, p1, bs1), ten, w, pul, names, rp, tag)
+
+
+def goal_normalize(spec, pre, post):
+  import numpy as np
+
+  x = np.array([float(np.float32(v)) for v in c05._scal(spec, "x")])
+  n = float(np.linalg.norm(x))
+  u = x / n if n > 0 else x
+  ok = lib.approx(post["norm_out"][0], n, rtol=1e-3, atol=1e-6) and all(lib.approx(post["unit_out"][0][i], u[i], rtol=1e-3, atol=1e-6) for i in range(3))
+  return ok, f"normalize_with_norm({x}) = {post['unit_out'][0]}, {post['norm_out'][0]} vs {u}, {n}"
+
+
+def unit_normalize(ctx):
+  """discharges the `math.normalize_with_norm` contract (shared uninterpreted function in the spatial tendon and ball limit
+  units): it returns (x / |x|, |x|), and (x, 0) for x = 0"""
+  from checks import kernels_c22 as K
+  from mujoco_warp._src import math as mjmath
+
+  k = K.normalize_with_norm_wrap
+  ctx.encode(mjmath.normalize_with_norm)
+  ctx.assume("floats are exact reals; sqrt is the non-negative root")
+  kt = lib.kernel_thread(k, unroll=2, shapes={"unit_out": [1], "norm_out": [1]})
+  x = kt.args["x"].c
+  n = kt.post("norm_out", 0)
+  u = [kt.post("unit_out", 0, k=i) for i in range(3)]
+  bg = kt.bg
+  rp = lib.make_replay(ctx, kt, "checks.kernels_c22:normalize_with_norm_wrap", "nrm", "goal", goal="checks.c22:goal_normalize", env={})
+  ctx.reach(ctx.session(bg), "twin:non-zero", x[0] != 0)
+  sq = rf.dot(x, x)
+  c05.prove_hard(ctx, bg, "norm>=0,norm^2=|x|^2", And(cmp(">=", n, 0.0), cmp("==", arith("*", n, n), sq)), True, None, True, names={"x0": x[0]}, replay=rp, desc="normalize_with_norm: second result is not the Euclidean norm")
+  for i in range(3):
+    c05.prove_hard(ctx, bg, f"unit*norm=x/{i}", cmp("==", arith("*", u[i], n), x[i]), cmp(">", sq, 0.0), None, True, names={"x0": x[0]}, replay=rp, desc="normalize_with_norm: first result times the norm is not x")
+    ctx.prove(ctx.session(bg), f"zero-vector/{i}", cmp("==", u[i], x[i]), And(x[0] == 0, x[1] == 0, x[2] == 0), names={"x0": x[0]}, replay=rp, desc="normalize_with_norm: x = 0 must be returned unchanged")
+
+
 def main(tier, seed, only=None):
   U = 3
-  units = [("refcheck", unit_refcheck), ("jac_dof", unit_jac_dof), ("jac_dot_dof", c05.unit_jac_dot_dof), unit_chain(2, 4), ("tendon/joint_tendon", unit_joint_tendon), unit_velocity("tendon", U), unit_velocity("actuator", U)]
+  units = [("refcheck", unit_refcheck), ("jac_dof", unit_jac_dof), ("jac_dot_dof", c05.unit_jac_dot_dof), unit_chain(2, 4), ("contracts/normalize_with_norm", unit_normalize), ("spatial/site_tendon", unit_site_tendon), ("spatial/geom_tendon", unit_geom_tendon), ("tendon/joint_tendon", unit_joint_tendon), unit_velocity("tendon", U), unit_velocity("actuator", U)]
   for b in c05.SIMPLE:
     for sp in ((False, True), (True, True)):
       units.append(unit_vel(b, sp, 2 if b == "_equality_tendon" and (sp[0] or tier == "quick") else U))
